@@ -6,7 +6,10 @@ SPEC = {
     'theorems': ['C15_invariants_partial', 'C15_weighted_sums_partial', 'C15_exec_consistency_partial',
                  'C15_error_changes_nothing', 'C15_same_account_partial',
                  'C15_conservation_refuted', 'C15_failed_op_atomic_refuted', 'C15_nonneg_refuted',
-                 'C15_same_account_refuted'],
+                 'C15_same_account_refuted',
+                 'C15_keys_consistent', 'C15_receipt_matches_state', 'C15_receipt_logs_after_partial',
+                 'C15_receipt_logs_after_refuted', 'C15_coins_actions_conserve', 'C15_coins_state_from_receipts',
+                 'C15_ledger_keys_disjoint', 'C15_ledgers_independent'],
     'allowed_axioms': [],
     'shard': 60,
     'check_preamble': 'Open Scope Z_scope.\n',
